@@ -292,6 +292,10 @@ func Run(ctx *common.Ctx) {
 	for k := range bs {
 		specs = append(specs, sessSpec{bs[k], bp[k], false, false, "block:default-form-session"})
 	}
+	is, ip := instanceSlotSessions()
+	for k := range is {
+		specs = append(specs, sessSpec{is[k], ip[k], false, false, "block:instance-slot-session"})
+	}
 	for i := 0; i < nmod; i++ {
 		wild := i%2 == 1
 		forms, probes, wildText := genSession(rng, ctx.Hist, wild, true)
